@@ -4655,6 +4655,14 @@ class QuadraticBezier(Curve):
             B = 4 * (a.real * b.real + a.imag * b.imag)
             C = b.real * b.real + b.imag * b.imag
 
+            if A < 1e-10 * C:
+                # The speed is nearly constant (the control point is next to the middle of the chord). The closed
+                # form below divides by powers of A and returns rounding noise here; integrate the second order
+                # expansion of |b + 2at| instead.
+                dot = B / 4.0
+                c2 = sqrt(C)
+                return c2 + dot / c2 + (A * C / 4.0 - dot * dot) * 2.0 / (3.0 * c2 * C)
+
             Sabc = 2 * sqrt(A + B + C)
             A2 = sqrt(A)
             A32 = 2 * A * A2
